@@ -281,7 +281,10 @@ def run_batch(binp, prop, tier, base, total, workers, timeout, gomaxprocs=1, kee
                 seed = starts[-1] if starts and starts[-1] not in finished else None
                 srows = [r for r in rows if "start" in r]
                 ccase = srows[-1].get("case") if srows and seed is not None else None
-                crashes.append(dict(seed=seed, index=ch.frm + idx_done - 1, rc=rc, log=logtxt[-30000:], case=ccase))
+                # the panic message is at the head of the goroutine dump, the tail shows the other goroutines
+                i0 = max(logtxt.find("panic:"), logtxt.find("fatal error:"), logtxt.find("WARNING: DATA RACE"), 0)
+                keep = logtxt[max(0, i0 - 2000):i0 + 12000] + "\n...\n" + logtxt[-15000:] if len(logtxt) > 30000 else logtxt
+                crashes.append(dict(seed=seed, index=ch.frm + idx_done - 1, rc=rc, log=keep, case=ccase))
             # continue after the failed run
             nfrm = ch.frm + max(idx_done, 1)
             nn = ch.frm + ch.n - nfrm
